@@ -85,12 +85,19 @@ def main():
     for k in range(n):
         nm, p, f, meta = case(ck.rng, k)
         pairs.append(("p.patch", p, "a.go", f)); names.append(nm); metas.append(meta)
+    dupfams = [i for i, f in enumerate(enginegen.EXPR_FAMILIES) if f[0].startswith("dup") or f[0] in ("call-dup",)]
+    for k in range(1200 if thorough else 240):
+        nm, p, f, meta = enginegen.grammar_case(ck.rng, dupfams[k % len(dupfams)] + len(enginegen.EXPR_FAMILIES) * (k // len(dupfams)))
+        pairs.append(("p.patch", p, "a.go", f)); names.append(nm); metas.append(meta)
+    for k in range(300 if thorough else 60):
+        nm, p, f, meta = enginegen.stmt_case(ck.rng, 4 + 8 * k)   # lock(x) ... unlock(x)
+        pairs.append(("p.patch", p, "a.go", f)); names.append(nm); metas.append(meta)
     res = enginecorr.run(pairs)
     for name, pair, o, meta in zip(names, pairs, res, metas):
         ck.count((pair[1], pair[3]), nontrivial=not o["skipped"])
         if meta:
             ck.tally("family", meta["family"])
-            for pl in meta["planted"]:
+            for pl in meta.get("planted", []):
                 ck.tally("second_occurrence", pl["kind"])
         enginecheck.report(ck, name, pair, o, "any", meta)
     g = len(pairs) - n + 4
